@@ -1253,6 +1253,36 @@ def exRmSym : Graph :=
 /-- net1 ran `a` (PASS) and is running `b`; net2 has not moved -/
 def exRmSym_2 : State := runSched exRmSym 100 (initState exRmSym 4 [] []) [(0, exNoOut), (0, exPass)]
 
+/-- `exRmSym` with the two workers in DIFFERENT swarms and retries on `d` (`max_tries = 3`, `rerun_status = fail`):
+`SymCopies` holds, `MaxTriesOne` does not -/
+def exRmRetry : Graph :=
+  { workers := [{ id := "c1.net1", swarm := "c1" }, { id := "c2.net2", swarm := "c2" }],
+    nodes := [
+      { cls := 0, owner := some 0, name := "a.c1.net1", pfx := "1a1", objs := ["vm1"],
+        sets := [("vm1", "a")], unsetMode := [("vm1", "fi")], setup := [(6, ["vm1"])],
+        cleanup := [(2, ["vm1"]), (4, ["vm1"])] },
+      { cls := 0, owner := some 1, name := "a.c2.net2", pfx := "1a1", objs := ["vm1"],
+        sets := [("vm1", "a")], unsetMode := [("vm1", "fi")], setup := [(6, ["vm1"])],
+        cleanup := [(3, ["vm1"]), (5, ["vm1"])] },
+      { cls := 1, owner := some 0, name := "b.c1.net1", pfx := "2a1", objs := ["vm1"],
+        gets := [("vm1", "a")], setup := [(0, ["vm1"])] },
+      { cls := 1, owner := some 1, name := "b.c2.net2", pfx := "2a1", objs := ["vm1"],
+        gets := [("vm1", "a")], setup := [(1, ["vm1"])] },
+      { cls := 3, owner := some 0, name := "d.c1.net1", pfx := "3a1", objs := ["vm1"], maxTries := some 3,
+        rerunStatus := some ["fail"], gets := [("vm1", "a")], setup := [(0, ["vm1"])] },
+      { cls := 3, owner := some 1, name := "d.c2.net2", pfx := "3a1", objs := ["vm1"], maxTries := some 3,
+        rerunStatus := some ["fail"], gets := [("vm1", "a")], setup := [(1, ["vm1"])] },
+      { cls := 2, owner := none, name := "noop", pfx := "1", flat := true, sharedRoot := true,
+        cleanup := [(0, ["vm1"]), (1, ["vm1"])] }],
+    root := 6 }
+
+def exFail : Outcome := { status := some "FAIL", dur := 1 }
+
+/-- `c1.net1` ran `a` (PASS) and `b` (PASS) while `c2.net2` started `d`; `c1.net1` then skipped and dropped its copy of `d`
+(the placeholder `UNKNOWN` of the peer is not in the rerun set) and removed the state -/
+def exRmRetry_4 : State :=
+  runSched exRmRetry 100 (initState exRmRetry 4 [] []) [(0, exNoOut), (0, exPass), (1, exNoOut), (0, exPass)]
+
 /-- `exSt` of `TravStates.lean` (test `a` sets `vm1/a`, copies for net1 and net2; only net2 has the dependant `b`) with
 the removal policy `fi` on `a`: `RemovableSingle` fails -/
 def exRmStale : Graph :=
